@@ -16,7 +16,8 @@ CLASSES = ('response-missing', 'response-extra', 'response-unexpected', 'respons
            'pid-nonzero', 'absent-unit-answered', 'exec-unsolicited')
 
 PROFILE = {'invalid_rate': 0.15, 'opaque_rate': 0.1, 'unknown_unit_rate': 0.2, 'multi_rate': 0.45,
-           'broadcast_rate': 0.25, 'max_conns': 3, 'max_reqs': 8, 'pipeline_rate': 0.25, 'cut_rate': 0.2}
+           'broadcast_rate': 0.25, 'max_conns': 3, 'max_reqs': 8, 'pipeline_rate': 0.25, 'cut_rate': 0.2,
+           'listen_only': True}
 
 
 def generate(rng, tier, index):
@@ -33,6 +34,8 @@ def classify(scn, cls, detail, res=None):
             sig[k] = detail[k]
     if sc.binary_delim(scn, res):
         sig['binary_delim'] = True
+    if sc.listen_only(scn, res):
+        sig['listen_only'] = True
     sig['pipelined'] = any(r.get('join') for reqs in scn['conns'] for r in reqs)
     return sig
 
@@ -43,7 +46,7 @@ def execute(scn):
     an = sc.Analysis(scn, res)
     for cls, detail, msg in an.v + sc.harness_violations(scn, res):
         if cls in CLASSES or cls == 'escaped':
-            out['violations'].append({'sig': classify(scn, cls, detail), 'msg': msg})
+            out['violations'].append({'sig': classify(scn, cls, detail, res), 'msg': msg})
     out['probes']['requests_pipelined'] = sum(1 for reqs in scn['conns'] for r in reqs if r.get('join'))
     out['probes']['absent_unit_requests'] = sum(1 for reqs in scn['conns'] for r in reqs
                                                 if not scn.get('single', True) and str(r['u']) not in scn['units'])
